@@ -4,4 +4,4 @@
     Coq's positive / N / Z / nat. *)
 From Coq Require Import ExtrOcamlBasic List NArith ZArith.
 From Mast Require Import Prim Key Tree Codec Store Diff World.
-Extraction "model.ml" step run empty_world root_json name_of kmarshal klayer kcmp crc64 encode_node.
+Extraction "model.ml" step run empty_world root_json name_of kmarshal klayer kcmp crc64 encode_node narrow_cmp narrow_layer.
